@@ -60,7 +60,7 @@ def run_one(pid, name, mut, tier, baseline):
                 res["baseline_tail"] = t.stdout[-600:]
         env["VERIF_REPO"] = wt
         t0 = time.time()
-        c = subprocess.run([os.path.join(VERIF, "check"), pid, tier], cwd=VERIF, env=env, capture_output=True, text=True)
+        c = subprocess.run([os.path.join(VERIF, "check"), pid.split("_")[0], tier], cwd=VERIF, env=env, capture_output=True, text=True)
         res["exit"] = c.returncode
         res["wall_s"] = round(time.time() - t0, 1)
         res["violations"] = sorted(set(re.findall(r"VIOLATION property=\S+ replay=\S*/([^/\s]+)\.json", c.stdout)))
@@ -105,9 +105,9 @@ def main():
     if os.path.exists(out_path):
         results = json.load(open(out_path))
     # keep the real tree's evidence/replays untouched by mutant runs
-    ev = os.path.join(VERIF, "evidence", pid + ".json")
+    ev = os.path.join(VERIF, "evidence", pid.split("_")[0] + ".json")
     saved = open(ev).read() if os.path.exists(ev) else None
-    rp = os.path.join(VERIF, "replays", pid)
+    rp = os.path.join(VERIF, "replays", pid.split("_")[0])
     before = set(os.listdir(rp)) if os.path.isdir(rp) else set()
     for nme in names:
         r = run_one(pid, nme, muts[nme], tier, baseline)
